@@ -10,6 +10,7 @@ pub mod util;
 
 pub mod regress;
 
+pub mod c01;
 pub mod c02;
 pub mod c03;
 pub mod c04;
